@@ -12,7 +12,7 @@ struct Piece { int len = 1, pause = 0; };
 struct Fault { int fn = 0, k = 0, err = 0; };
 struct TaskCase {
   int dir = 0, handler = 0, buf_size = 64, win_off = 0, win_len = 64, used0 = 0, ev_flags = 0, after_every_read = 0, timeout_ms = 0,
-      start_ex_direct = 0, prequeue = 0, end = 1, cb_policy = 0, rearm = 0, sndbuf = 0;
+      start_ex_direct = 0, prequeue = 0, end = 1, cb_policy = 0, rearm = 0, sndbuf = 0, close_on_destroy = 0;
   std::vector<Piece> pieces;
   Bytes plan;
   std::vector<Fault> faults;
@@ -20,7 +20,7 @@ struct TaskCase {
     Writer w;
     w.i("dir", dir).i("handler", handler).i("buf_size", buf_size).i("win_off", win_off).i("win_len", win_len).i("used0", used0)
         .i("ev_flags", ev_flags).i("after_every_read", after_every_read).i("timeout_ms", timeout_ms).i("start_ex_direct", start_ex_direct)
-        .i("prequeue", prequeue).i("end", end).i("cb_policy", cb_policy).i("rearm", rearm).i("sndbuf", sndbuf);
+        .i("prequeue", prequeue).i("end", end).i("cb_policy", cb_policy).i("rearm", rearm).i("sndbuf", sndbuf).i("close_on_destroy", close_on_destroy);
     std::vector<long long> v;
     for (auto &p : pieces) { v.push_back(p.len); v.push_back(p.pause); }
     w.iv("pieces", v);
@@ -36,7 +36,7 @@ struct TaskCase {
     c.dir = (int)r.i("dir"); c.handler = (int)r.i("handler"); c.buf_size = (int)r.i("buf_size", 64); c.win_off = (int)r.i("win_off");
     c.win_len = (int)r.i("win_len", 64); c.used0 = (int)r.i("used0"); c.ev_flags = (int)r.i("ev_flags"); c.after_every_read = (int)r.i("after_every_read");
     c.timeout_ms = (int)r.i("timeout_ms"); c.start_ex_direct = (int)r.i("start_ex_direct"); c.prequeue = (int)r.i("prequeue"); c.end = (int)r.i("end", 1);
-    c.cb_policy = (int)r.i("cb_policy"); c.rearm = (int)r.i("rearm"); c.sndbuf = (int)r.i("sndbuf");
+    c.cb_policy = (int)r.i("cb_policy"); c.rearm = (int)r.i("rearm"); c.sndbuf = (int)r.i("sndbuf"); c.close_on_destroy = (int)r.i("close_on_destroy");
     auto v = r.iv("pieces");
     for (size_t j = 0; j + 2 <= v.size(); j += 2) c.pieces.push_back(Piece{(int)v[j], (int)v[j + 1]});
     c.plan = r.b("plan");
@@ -59,6 +59,7 @@ static Verdict evaluate(const TaskCase &c, const c16_out &o) {
   PBT_REQUIRE(o.cb_after_stop == 0, o.cb_after_stop << " callback(s) after stop/destroy/disable had returned on the task's own thread");
   PBT_REQUIRE(o.cb_while_paused == 0, o.cb_while_paused << " callback(s) while the dispatch task was paused: its callback had returned a code other than CONTINUE and "
                                                          "tp_task_enable(1) had not been called yet (header: such return codes stop callbacks until then)");
+  PBT_REQUIRE(!o.ident_open_after_destroy, "TP_TASK_F_CLOSE_ON_DESTROY: the task's descriptor was still open after tp_task_destroy() had returned");
   if (o.paused) PBT_REQUIRE(o.resume_rc == 0 || inj > 0, "tp_task_enable(1) on the paused task failed with " << o.resume_rc);
   if (o.start_rc != 0) {
     PBT_REQUIRE(inj > 0 || c.start_ex_direct, "task start failed with " << o.start_rc << " without an injected fault");
@@ -176,6 +177,7 @@ static Verdict evaluate(const TaskCase &c, const c16_out &o) {
   if (n_eof) nt = true;
   if (inj) { label("fault_injected"); nt = true; }
   if (c.start_ex_direct && o.ncb && o.cb[0].in_start) label("first_io_inside_start");
+  if (c.close_on_destroy) label("close_on_destroy_with_second_descriptor");
   if (c.ev_flags == 2) label("dispatch");
   if (rounds) label("window_rearmed");
   if (nt) nontrivial_cur();
@@ -191,7 +193,7 @@ static Verdict run_case(const TaskCase &c) {
   PBT_REQUIRE(c.win_off + c.win_len <= c.buf_size && c.win_len >= 1 && c.used0 <= c.buf_size, "harness: window outside the documented precondition");
   s->ev_flags = (uint8_t)c.ev_flags; s->after_every_read = (uint8_t)c.after_every_read; s->timeout_ms = (uint16_t)c.timeout_ms;
   s->start_ex_direct = (uint8_t)c.start_ex_direct; s->prequeue = (uint8_t)c.prequeue; s->end = (uint8_t)c.end;
-  s->cb_policy = (uint8_t)c.cb_policy; s->rearm = (uint8_t)c.rearm; s->sndbuf = (uint32_t)c.sndbuf;
+  s->cb_policy = (uint8_t)c.cb_policy; s->rearm = (uint8_t)c.rearm; s->sndbuf = (uint32_t)c.sndbuf; s->close_on_destroy = (uint8_t)c.close_on_destroy;
   s->npieces = (uint8_t)std::min<size_t>(c.pieces.size(), C16_MAX_PIECES);
   for (int i = 0; i < s->npieces; i++) { s->pieces[i].len = (uint16_t)std::max(1, std::min(2048, c.pieces[i].len)); s->pieces[i].pause = (uint8_t)c.pieces[i].pause; }
   s->plans.plan_len = (uint32_t)std::min<size_t>(c.plan.size(), TP_PLAN_MAX);
@@ -237,6 +239,8 @@ static rc::Gen<TaskCase> genCase() {
     if (slow && c.dir == 0 && c.handler == 0 && *range<int>(0, 2) == 0) { c.ev_flags = 2; c.cb_policy = 4; c.end = *rc::gen::element(1, 2); c.after_every_read = *rc::gen::element(1, 1, 0); }
     c.rearm = (c.dir == 0 && c.handler == 0) ? *rc::gen::weightedElement<int>({{4, 0}, {1, 1}}) : 0;
     c.sndbuf = c.dir == 1 ? *rc::gen::element(0, 0, 2304) : 0;
+    // the task owns a dup() of the socket and closes it on destroy; the harness' descriptor keeps the open file description alive
+    c.close_on_destroy = (c.handler == 0) ? *rc::gen::weightedElement<int>({{3, 0}, {1, 1}}) : 0;
     c.plan = *bytes_upto(12);
     if (*range<int>(0, 5) == 0)
       c.faults.push_back(Fault{*rc::gen::element<int>(F_EPOLL_CTL, F_EPOLL_CTL, F_TIMERFD_CREATE, F_TIMERFD_SETTIME), *range<int>(1, 4), *rc::gen::element<int>(ENOMEM, EMFILE, EINVAL)});
